@@ -127,6 +127,11 @@ def step (s : St) (ws : List String) : St × String :=
     let cut := ((parseKV [c] "cut").bind String.toNat?).getD 0
     let (p', n) := evict p cut
     ({ s with p := some p' }, s!"removed={n}")
+  | ["evict", c, _tol] =>
+    -- an extreme tolerance (`tol=max`: "never"; `tol=250y`): given with cut=0 — nothing is that old
+    let cut := ((parseKV [c] "cut").bind String.toNat?).getD 0
+    let (p', n) := evict p cut
+    ({ s with p := some p' }, s!"removed={n}")
   | ["setseq", n] => ({ s with p := some { p with seqNo := n.toNat?.getD 0 } }, "ok")
   | "restart" :: opts =>
     let seq := ((parseKV opts "seq").bind String.toNat?).getD 0
